@@ -73,6 +73,9 @@ def case_recipe(G, espec, rng, nmods, annotate=False, refs=False, rotate=True, s
                     spec["refs"][j] = "%s|Submitted (02-FEB-2021)||" % base
                 else:
                     spec["refs"][j] = "%s|||second deposit" % base
+            if nref >= 2 and rng.random() < 0.25:
+                i, j = sorted(rng.sample(range(nref), 2))
+                spec["refs"][j] = spec["refs"][i]          # two entries that compare equal; features may cite the later one
             if nref == 0 and rng.random() < 0.5:
                 spec.pop("refs")          # no reference list at all (equivalent to an empty one)
         if annotate:
@@ -267,5 +270,11 @@ def fuzz_assemblies(run):
                                 "modules": [mods[1], {"id": "m3", "seq": m3.lower()}, mods[0]], "id": "p", "name": "p"})
     # citations on inputs must not turn into internal errors either
     for r in real_family_cases(rng, 1 if q else 4, 2, annotate=True, refs=True):
+        recipes.append(r)
+    # the very same module wrapper supplied twice, with and without citations
+    for r in real_family_cases(rng, 1 if q else 3, 2, annotate=True, refs=True, shuffle=False) + real_family_cases(rng, 1 if q else 2, 2, shuffle=False):
+        if rng.random() < (0.6 if q else 0.0):
+            continue
+        r["dup_wrapper"] = rng.randrange(len(r["modules"]))
         recipes.append(r)
     validate(run, "assemblies-fuzz", recipes)
